@@ -4,9 +4,10 @@ CONSTANTS
   NEvents = 2
   Clients = {"c1", "c2"}
   MaxReq = 1
-  Endpoints = {"pause", "continue", "state", "now", "tick", "component", "field", "buffers", "progress"}
+  Endpoints = {"pause", "continue", "state", "now", "tick", "component", "field", "field_paged", "field_missing", "buffers", "progress"}
   PauseWaits = TRUE
   HoldCtl = TRUE
+  EarlyWalk = {}
   Atomic = FALSE
   Record = FALSE
 INVARIANT TypeOK
